@@ -114,6 +114,8 @@ def _walk_common(res, reach):
         for f in rec.get("fired", []):
             if "fault" in f:
                 reach.fault(f"raise@{f['fault']}:{f.get('kind') or '-'}:{f['exc']}")
+                if f["fault"] == "cbi":
+                    reach.probe(f"inside-callback-fault-in:{f.get('where')}")
             elif "peer" in f:
                 reach.fault(f"{f['peer']}:{f.get('cls') or f.get('k')}")
                 if f["peer"] == "scripted" and f.get("xkind") != "real":
